@@ -23,7 +23,7 @@ if [ -n "$FILES" ]; then
   for f in $FILES; do /venv/bin/python -m mypy $f 2>/dev/null | grep -q "^$f:" && LINT="$LINT mypy-fails($f)"; done
 fi
 cd "$VER" || exit 2
-VERIF_REPO="$WT" VERIF_SHRINK_S=10 timeout 1500 ./check "$ID" --tier quick > "$WT/check.log" 2>&1; RC_CHECK=$?
+VERIF_NO_EVIDENCE=1 VERIF_REPO="$WT" VERIF_SHRINK_S=10 timeout 1500 ./check "$ID" --tier quick > "$WT/check.log" 2>&1; RC_CHECK=$?
 KEYS="$(grep -E '^  family=' "$WT/check.log" | head -3 | tr '\n' ';')"
 mkdir -p "$VER/seeded/$ID$SUF"
 [ "$OUT" = "$VER/seeded/$ID$SUF" ] || cp "$OUT/patch.diff" "$OUT/demo.py" "$VER/seeded/$ID$SUF/"
